@@ -54,7 +54,9 @@ CLAIMED = {
    "Exploration: 11 types with FromIterator/Extend incl. pair estimators with (f64,f64) and &(f64,f64) items, Estimate::estimate vs headline accessor, four concatenate!-generated structs x four constructors."),
 }
 FUZZ = {"C05": "quantile", "C07": "quantile", "C15": "quantile", "C06": "histogram", "C12": "histogram", "C13": "histogram",
-        "C11": "history", "C14": "history", "C18": "history", "C20": "history"}
+        "C11": "history", "C14": "history", "C18": "history", "C20": "history",
+        "C01": "moments", "C02": "moments", "C03": "moments", "C04": "moments", "C08": "moments", "C09": "moments",
+        "C10": "moments", "C16": "moments", "C17": "moments"}
 for k in CLAIMED:
     t = CLAIMED[k]
     tech = t[0]
@@ -100,7 +102,7 @@ manifest = {
         {"name": "avg-verif", "path": "/verif/harness", "serves_properties": sorted(CLAIMED.keys()),
          "kind_free_text": "Rust lib + binary `check`: proptest TestRunner driven from a binary (fixed seeds derived from VERIF_SEED, shrinking, replay files), bounded-exhaustive enumerators, stateful history interpreters, hill-climbing search, exact big-integer oracle (cross-checked against Python fractions at setup)"},
         {"name": "avg-verif-fuzz", "path": "/verif/harness/fuzz", "serves_properties": sorted(FUZZ.keys()),
-         "kind_free_text": "cargo-fuzz / libFuzzer targets quantile, histogram, history (nightly, ASan): bytes decoded with arbitrary::Unstructured into the harness's case types, judged by the same oracle functions; thorough tier only; crash artifacts are re-judged and converted into replay files by `check fuzz-replay`"},
+         "kind_free_text": "cargo-fuzz / libFuzzer targets quantile, histogram, history, moments (nightly; no sanitizer because average is forbid(unsafe_code); debug assertions and overflow checks on): bytes decoded with arbitrary::Unstructured into the harness's case types, judged by the same oracle functions; thorough tier only; crash artifacts are re-judged and converted into replay files by `check fuzz-replay`"},
     ],
     "checks": checks,
     "not_applicable": na,
